@@ -8,6 +8,7 @@ import (
 	"sort"
 	"strconv"
 	"strings"
+	"sync"
 	"syscall"
 	"testing"
 	"time"
@@ -87,12 +88,44 @@ func KnownKey(prop, key string) bool {
 	if key == "" {
 		return false
 	}
+	if replayDemonstrates(prop, key) {
+		return false // replaying the recorded demonstration of this very finding: show it as the violation it is
+	}
 	for _, k := range strings.Split(os.Getenv("VERIF_KNOWN_KEYS"), ",") {
 		if k == prop+"/"+key {
 			return true
 		}
 	}
 	return false
+}
+
+var replayKey struct {
+	once      sync.Once
+	prop, key string
+}
+
+// replayDemonstrates: the worker is replaying a file (VERIF_REPLAY) whose recorded violation is (prop, key).
+func replayDemonstrates(prop, key string) bool {
+	replayKey.once.Do(func() {
+		f := os.Getenv("VERIF_REPLAY")
+		if f == "" {
+			return
+		}
+		b, err := os.ReadFile(f)
+		if err != nil {
+			return
+		}
+		var r struct {
+			Violation *struct {
+				Property string `json:"property"`
+				Key      string `json:"key"`
+			} `json:"violation"`
+		}
+		if json.Unmarshal(b, &r) == nil && r.Violation != nil {
+			replayKey.prop, replayKey.key = r.Violation.Property, r.Violation.Key
+		}
+	})
+	return replayKey.key != "" && replayKey.prop == prop && replayKey.key == key
 }
 
 // RealNow returns the real wall clock in nanoseconds even inside a testing/synctest bubble (where
